@@ -28,6 +28,7 @@ struct lbuf {
 	int mark_off[NMARKS];	/* mark line offsets */
 	char **ln;		/* buffer lines */
 	char *ln_glob;		/* line global mark */
+	int ln_lo;		/* lowest line changed since lbuf_globlo() set it */
 	int ln_n;		/* number of lines in ln[] */
 	int ln_sz;		/* size of ln[] */
 	int useq;		/* current operation sequence */
@@ -158,6 +159,8 @@ static void lbuf_replace(struct lbuf *lb, char *s, int pos, int n_del)
 {
 	int n_ins = linecount(s);
 	int i;
+	if (pos < lb->ln_lo)
+		lb->ln_lo = pos;
 	while (lb->ln_n + n_ins - n_del >= lb->ln_sz) {
 		int nsz = lb->ln_sz + (lb->ln_sz ? lb->ln_sz : 512);
 		char **nln = malloc(nsz * sizeof(nln[0]));
@@ -496,6 +499,14 @@ int lbuf_modified(struct lbuf *lb)
 void lbuf_globset(struct lbuf *lb, int pos, int dep)
 {
 	lb->ln_glob[pos] |= 1 << dep;
+}
+
+/* the lowest line changed since it was set to pos (pos < 0: only return it) */
+int lbuf_globlo(struct lbuf *lb, int pos)
+{
+	if (pos >= 0)
+		lb->ln_lo = pos;
+	return lb->ln_lo;
 }
 
 /* return and clear ex global command mark */
